@@ -48,7 +48,11 @@ def cases(draw):
     cfg = {"skipws": True, "ws": None, "auto_init_attributes": draw(st.booleans()), "use_regexp_group": False}
     texts = draw(I.inputs_for(g, cfg, n=4, mutate=False))
     names = [r["name"] for r in g["rules"]]
-    return {"g": g, "cfg": cfg, "inputs": texts,
+    if draw(st.integers(0, 9)) == 0:
+        # multi-file loads with user classes: processors must see initialised objects of every file
+        return {"kind": "imports", "nfiles": draw(st.integers(2, 3)), "styles": ["plain", draw(st.sampled_from(["plain", "frozen"]))],
+                "bad_file": None, "fault": None, "as_callable": draw(st.booleans())}
+    return {"g": g, "cfg": cfg, "inputs": texts, "replace_value": draw(st.sampled_from(["tag", "tag", 0, "", False])),
             "replace": sorted(draw(st.lists(st.sampled_from(names[1:] or names), min_size=draw(st.sampled_from([0, 1, 1, 2])),
                                             max_size=2, unique=True))),
             "userclasses": sorted(draw(st.lists(st.sampled_from(names), max_size=2, unique=True)))
@@ -63,6 +67,10 @@ def evaluate(case):
     from textx.exceptions import TextXError
 
     out = Outcome()
+    if case.get("kind") == "imports":
+        from vt.checks import c14
+
+        return c14.eval_imports(case, out)
     g, cfg = case["g"], case["cfg"]
     gtext = G.to_text(g)
     kinds = peg.kinds(g)
@@ -95,7 +103,9 @@ def evaluate(case):
             if type(o).__name__ in ucnames and id(o) not in inited:
                 problems.append(f"processor of {rule} saw a user-class object before its __init__")
             if rule in case["replace"]:
-                return f"<{rule}:{type(o).__name__}>"
+                rv = case.get("replace_value", "tag")
+                # also falsy values are replacements (only None means 'keep the object')
+                return f"<{rule}:{type(o).__name__}>" if rv == "tag" else rv
             return None
 
         return proc
@@ -220,10 +230,11 @@ def evaluate(case):
                 def one(x):
                     if not isinstance(x, peg.Obj):
                         return D.dump_ref(x)
+                    rv = case.get("replace_value", "tag")
                     if x.cls in case["replace"]:
-                        return D.prim(f"<{x.cls}:{x.cls}>")
+                        return D.prim(f"<{x.cls}:{x.cls}>" if rv == "tag" else rv)
                     if decl != x.cls and decl in case["replace"] and kinds.get(decl) == "abstract":
-                        return D.prim(f"<{decl}:{x.cls}>")
+                        return D.prim(f"<{decl}:{x.cls}>" if rv == "tag" else rv)
                     return expected_dump(x)
 
                 d["attrs"][a] = [one(x) for x in v] if isinstance(v, list) else one(v)
